@@ -50,6 +50,13 @@ class C02AllOrNone(Monitor):
             src, dst = info['src'], info['dst']
             if src not in heads or dst not in heads:
                 continue
+            # two pull requests proposing the same commits to different
+            # destinations: "the changes of this pull request" are not its
+            # own, the clause is not evaluated for them
+            shared = bool(info.get('shared_commits'))
+            if shared:
+                hist.count('c02_shared_commits_not_judged')
+                continue
             tg = [t for t in targets_of(w, heads, dst) if t in heads]
             on = [t for t in tg if w.is_ancestor(heads[src], heads[t])]
             if on and len(on) != len(tg):
